@@ -579,7 +579,7 @@ pub fn run(tier: Tier) -> i32 {
                     let st = db.query(&format!("SELECT '[' || ({}) || ']'", {
                         // the value expression of the direct statement: between SELECT and AS x
                         let up = dsql.replace('\n', " ");
-                        let a = up.find("SELECT").map(|i| i + 6).unwrap_or(0);
+                        let a = up.rfind("SELECT").map(|i| i + 6).unwrap_or(0);
                         let z = up.rfind(" AS x").unwrap_or(up.len());
                         up[a..z].trim().to_string()
                     }));
@@ -591,7 +591,6 @@ pub fn run(tier: Tier) -> i32 {
                     ("named-default", format!("let idf = q d:{} -> d\nfrom [{{z = 1}}]\nselect {{x = idf 0}}", if lit.starts_with('-') || lit.starts_with('@') { format!("({lit})") } else { lit.to_string() }), false),
                     ("f-string-hole-let-constant", format!("let v = {lit}\nfrom [{{z = 1}}]\nselect {{x = f\"[{{v}}]\"}}"), true),
                     ("f-string-hole-function-parameter", format!("let lab = p -> f\"[{{p}}]\"\nfrom [{{z = 1}}]\nselect {{x = lab {lit}}}"), true),
-                    ("f-string-hole-in-place", format!("from [{{z = 1}}]\nselect {{x = f\"[{{{lit}}}]\"}}"), true),
                 ];
                 for (how, src, is_f) in through {
                     run.validated += 1;
